@@ -236,6 +236,119 @@ func yamlEmit(sb *strings.Builder, n *JNode, ind int) {
 	}
 }
 
+// YAMLStyle records what the styled emitter did, by path (YAMLPath syntax).
+type YAMLStyle struct {
+	CommentedKeys map[string]bool // `key: # comment` with the (block) value on the following lines
+	Flow          map[string]bool // collections written in flow style
+}
+
+// YAMLFromTreeStyled renders the same tree the way hand-written YAML looks: some
+// scalar-only collections in flow style, some keys quoted, comment lines and trailing
+// comments, an optional document start marker. The caller checks that the text still
+// decodes to the tree.
+func YAMLFromTreeStyled(r *rand.Rand, n *JNode) (string, *YAMLStyle) {
+	st := &YAMLStyle{CommentedKeys: map[string]bool{}, Flow: map[string]bool{}}
+	var sb strings.Builder
+	yamlEmitStyled(r, &sb, n, 0, JPath{}, st)
+	lines := strings.Split(strings.TrimSuffix(sb.String(), "\n"), "\n")
+	var out []string
+	if r.IntN(4) == 0 {
+		out = append(out, "---")
+	}
+	for _, l := range lines {
+		ind := l[:len(l)-len(strings.TrimLeft(l, " "))]
+		if r.IntN(6) == 0 {
+			out = append(out, ind+"# note: "+pick(r, []string{"x", "a: b", "- item", "[1]", "---"}))
+		}
+		if r.IntN(8) == 0 && !strings.HasSuffix(l, ":") && !strings.Contains(l, " # ") {
+			l += " # " + pick(r, []string{"trailing", "t: 1", "#"})
+		}
+		out = append(out, l)
+	}
+	return strings.Join(out, "\n") + "\n", st
+}
+
+func scalarOnly(n *JNode) bool {
+	for _, v := range n.Vals {
+		if v.Kind == "obj" || v.Kind == "arr" {
+			return false
+		}
+	}
+	return len(n.Vals) > 0
+}
+
+func yamlKey(r *rand.Rand, k string) string {
+	switch r.IntN(8) {
+	case 0:
+		return "\"" + k + "\""
+	case 1:
+		return "'" + k + "'"
+	}
+	return k
+}
+
+func yamlFlow(r *rand.Rand, n *JNode) string {
+	var parts []string
+	for i, v := range n.Vals {
+		if n.Kind == "obj" {
+			parts = append(parts, yamlKey(r, n.Keys[i])+": "+yamlScalarText(v))
+		} else {
+			parts = append(parts, yamlScalarText(v))
+		}
+	}
+	if n.Kind == "obj" {
+		return "{" + strings.Join(parts, ", ") + "}"
+	}
+	return "[" + strings.Join(parts, ", ") + "]"
+}
+
+func yamlEmitStyled(r *rand.Rand, sb *strings.Builder, n *JNode, ind int, at JPath, st *YAMLStyle) {
+	pad := strings.Repeat(" ", ind)
+	child := func(s JStep) JPath { return JPath{Steps: append(append([]JStep(nil), at.Steps...), s)} }
+	switch n.Kind {
+	case "obj":
+		for i, k := range n.Keys {
+			v := n.Vals[i]
+			key := yamlKey(r, k)
+			cp := child(JStep{Key: k})
+			switch v.Kind {
+			case "obj", "arr":
+				if scalarOnly(v) && r.IntN(3) == 0 {
+					sb.WriteString(pad + key + ": " + yamlFlow(r, v) + "\n")
+					st.Flow[cp.YAMLPath()] = true
+				} else {
+					c := ""
+					if r.IntN(8) == 0 {
+						c = " # " + pick(r, []string{"about " + k, "#", "t: 1"})
+						st.CommentedKeys[cp.YAMLPath()] = true
+					}
+					sb.WriteString(pad + key + ":" + c + "\n")
+					yamlEmitStyled(r, sb, v, ind+2, cp, st)
+				}
+			default:
+				sb.WriteString(pad + key + ": " + yamlScalarText(v) + "\n")
+			}
+		}
+	case "arr":
+		for i, v := range n.Vals {
+			cp := child(JStep{IsIdx: true, Index: i})
+			switch v.Kind {
+			case "obj":
+				if scalarOnly(v) && r.IntN(3) == 0 {
+					sb.WriteString(pad + "- " + yamlFlow(r, v) + "\n")
+					st.Flow[cp.YAMLPath()] = true
+					continue
+				}
+				var inner strings.Builder
+				yamlEmitStyled(r, &inner, v, ind+2, cp, st)
+				sb.WriteString(pad + "- " + strings.TrimPrefix(inner.String(), strings.Repeat(" ", ind+2)))
+			default:
+				sb.WriteString(pad + "- " + yamlScalarText(v) + "\n")
+			}
+		}
+	}
+}
+
 // YAMLPath renders a path in goccy's `$.a.b[1]` syntax.
 func (p JPath) YAMLPath() string {
 	var sb strings.Builder
